@@ -21,11 +21,14 @@ mod c17;
 mod c19;
 mod c15;
 mod c12;
+mod c20;
 
 fn main() {
     let args: Vec<String> = std::env::args().collect();
     if args.len() < 2 { eprintln!("usage: vh <prop> <tier> <seed> [n] | vh replay <prop> <file>"); std::process::exit(2); }
     if args[1] == "C19files" { c19::files(&args[2]); return; }
+    if args[1] == "C20files" { c20::files(&args[2]); return; }
+    if args[1] == "C20names" { c20::names(&std::fs::read_to_string(&args[2]).unwrap()); return; }
     if args[1] == "replay" {
         let text = std::fs::read_to_string(&args[3]).expect("replay file");
         let line = text.lines().find(|l| l.contains("\"prop\"")).expect("record line");
